@@ -182,6 +182,15 @@ def gen_plan(rng, tier="quick"):
                 st["fault"] = {"kind": rng.choice(["eio", "enospc", "torn", "close_err", "short", "short"]), "k": rng.choice([1, 1, 2, 3, 5, 8, 13, 21, 40]), "every": rng.choice([1, 2, 3])}
             steps.append(st)
             files[name] = fmt
+            if rng.random() < 0.12 and not st.get("fault") and fmt != "funwave":
+                # the caller goes on working with the dataset it has just exported: edits it in place and exports it again
+                # (to the same or to another path) - the second file holds the dataset as it is *then*
+                name2 = name if rng.random() < 0.4 else f"again.{name}"
+                st2 = {"op": "write", "file": name2, "fmt": fmt, "recipe": json.loads(json.dumps(recipe)), "kw": dict(kw), "reuse": len(steps) - 1,
+                       "edit": {"k": rng.choice(["scale_first", "scale_first", "zero_first", "scale_all", "lon_last"]), "f": rng.choice([0.5, 3.0])}}
+                steps.append(st2)
+                files[name2] = fmt
+                name = name2
             if rng.random() < 0.6:
                 steps.append({"op": "read", "file": name, "short_reads": rng.random() < 0.3, "engine": rng.random() < 0.2, "how": rng.choice(["path", "path", "path", "fileobj", "pathlib"])})
         elif kind == "read":
@@ -237,6 +246,28 @@ def expected_dataset(recipe, fmt):
             else:
                 lonlat = (np.zeros(ns), np.zeros(ns))
     return ds, kw, lonlat
+
+
+def edit_in_place(ds, lonlat, e):
+    """An in-place edit of a dataset the caller keeps using (no variable is replaced: the arrays behind it change).
+    Returns the positions the next export is expected to carry."""
+    v = ds["efth"]
+    lead = [d for d in v.dims if d not in ("freq", "dir")]
+    first = {lead[0]: 0} if lead else {}
+    k = e["k"]
+    if k == "scale_first":
+        v[first] = v[first] * np.asarray(e["f"], dtype=v.dtype)
+    elif k == "zero_first":
+        v[first] = 0.0
+    elif k == "scale_all":
+        v.values[...] = v.values * np.asarray(e["f"], dtype=v.dtype)
+    elif k == "lon_last" and "lon" in ds.variables and ds["lon"].dims == ("site",):
+        ds["lon"].values[-1] = np.round(ds["lon"].values[-1] + 0.125, 3)
+        if lonlat is not None:
+            lonlat = (np.asarray(ds["lon"].values, float).copy(), lonlat[1])
+    else:
+        v.values[...] = v.values * np.asarray(2.0, dtype=v.dtype)
+    return lonlat
 
 
 def do_write(ds, fmt, path, kw):
@@ -591,6 +622,7 @@ def execute(arg):
     gc.collect()
     gc.disable()
     held = []       # [release_at_step, exception]
+    objs, snaps = {}, {}      # datasets the "caller" still holds, by write step; what an edited one looked like when exported
 
     def release(now):
         due = [h for h in held if h[0] <= now]
@@ -608,7 +640,15 @@ def execute(arg):
             if st["op"] == "write":
                 tags = hist.setdefault(st["file"], [])
                 existed = os.path.exists(path)
-                exp, xkw, _ = expected_dataset(st["recipe"], st["fmt"])
+                if st.get("reuse") is not None:
+                    # the very object an earlier step exported (rebuilt only when that step is gone, e.g. while minimising)
+                    exp, xkw, ll = objs.get(st["reuse"]) or expected_dataset(st["recipe"], st["fmt"])
+                    ll = edit_in_place(exp, ll, st["edit"])
+                    snaps[i] = (exp.copy(deep=True), ll)
+                    sim.count("writes_of_edited_object")
+                else:
+                    exp, xkw, ll = expected_dataset(st["recipe"], st["fmt"])
+                objs[i] = (exp, xkw, ll)
                 fs.arm(st.get("fault"))
                 try:
                     do_write(exp, st["fmt"], path, dict(st["kw"], **xkw))
@@ -677,10 +717,12 @@ def execute(arg):
                 w = plan["steps"][wi]
                 fs.short_reads = bool(st.get("short_reads"))
                 exp, _, lonlat = expected_dataset(w["recipe"], w["fmt"])
+                if wi in snaps:
+                    exp, lonlat = snaps[wi]
                 sim.count("reads")
                 base = w["fmt"].split("_")[0]
                 how = st.get("how", "path") if not st.get("engine") and (base in ("octopus", "json", "funwave") and st.get("how") == "fileobj" or base == "octopus" and st.get("how") == "pathlib") else "path"
-                cause = features(w, h) + ("+via-xarray-engine" if st.get("engine") else "") + ("" if how == "path" else "+" + how)
+                cause = features(w, h) + ("+rewritten-after-inplace-edit" if wi in snaps else "") + ("+via-xarray-engine" if st.get("engine") else "") + ("" if how == "path" else "+" + how)
                 if how != "path":
                     sim.count("reads_" + how)
                 try:
